@@ -107,7 +107,7 @@ type statFailFile struct{ http.File }
 func (statFailFile) Stat() (fs.FileInfo, error) { return nil, errors.New("injected stat failure") }
 
 func (f faultyFS) Open(name string) (http.File, error) {
-	isIndex := path.Base(name) == f.index
+	isIndex := path.Base(path.Clean("/"+name)) == f.index // the file the name denotes, however it is spelt
 	switch f.mode {
 	case "open":
 		return nil, errors.New("injected open failure")
@@ -175,7 +175,7 @@ func staticOracle(fx *fixture, c *staticCase) staticOutcome {
 	if c.Fault == "stat" {
 		return silent
 	}
-	if c.Fault == "index-stat" && path.Base(cleaned) == idx && !fi.IsDir() {
+	if c.Fault == "index-stat" && path.Base(cleaned) == idx {
 		return silent
 	}
 	if c.Fault == "index-open" && path.Base(cleaned) == idx {
